@@ -174,10 +174,38 @@ func runC12(c *eng.Ctx) {
 		uniq := or.HasCallTo("github.com/gofrs/uuid/v5", "NewV4")
 		r2.Check(uniq, f.Key+" unique-name", call.Pos(), "file name derives from uuid.NewV4()", "the temporary file name does not derive from a fresh uuid: two executions (other hooks with the same safe name, other queues) can share, truncate and delete each other's files")
 		// returned path is the written path
+		// (success value, nil) pairs: `return P, nil`, or `r0, r1 = P, nil` into the variables that are returned
 		retOK := false
+		written := eng.SelObj(info, resolveLocal(info, f.Decl.Body, call.Args[0]))
+		if written == nil {
+			written = eng.SelObj(info, call.Args[0])
+		}
+		samePath := func(e ast.Expr) bool {
+			o := eng.SelObj(info, e)
+			if o == nil {
+				return false
+			}
+			if o == written || o == eng.SelObj(info, call.Args[0]) {
+				return true
+			}
+			ro := eng.SelObj(info, resolveLocal(info, f.Decl.Body, e))
+			return ro != nil && (ro == written || ro == eng.SelObj(info, call.Args[0]))
+		}
+		returned := map[types.Object]bool{}
 		eng.InspectNoLit(f.Decl.Body, func(n ast.Node) bool {
-			if r, ok := n.(*ast.ReturnStmt); ok && len(r.Results) == 2 && eng.IsNil(info, r.Results[1]) {
-				retOK = eng.SelObj(info, r.Results[0]) != nil && eng.SelObj(info, r.Results[0]) == eng.SelObj(info, call.Args[0])
+			if r, ok := n.(*ast.ReturnStmt); ok && len(r.Results) == 2 {
+				if eng.IsNil(info, r.Results[1]) {
+					retOK = samePath(r.Results[0])
+				} else if a, b := eng.SelObj(info, r.Results[0]), eng.SelObj(info, r.Results[1]); a != nil && b != nil {
+					returned[a], returned[b] = true, true
+				}
+			}
+			return true
+		})
+		eng.InspectNoLit(f.Decl.Body, func(n ast.Node) bool {
+			if as, ok := n.(*ast.AssignStmt); ok && len(as.Lhs) == 2 && len(as.Rhs) == 2 && eng.IsNil(info, as.Rhs[1]) &&
+				returned[eng.SelObj(info, as.Lhs[0])] && returned[eng.SelObj(info, as.Lhs[1])] {
+				retOK = samePath(as.Rhs[0])
 			}
 			return true
 		})
